@@ -1,0 +1,466 @@
+//go:build verif
+// +build verif
+
+// Contracts for the hash-tree leaves (leaf.go) and the leaf-level node maintenance (htree.go).
+// Property served: C08 (directory listing is a function of the live content).
+
+package store
+
+import "bytes"
+
+// ---------- C08: leaf entry layout ----------
+
+// an 11-byte leaf item at b[o:]: ver 4 | vhash 2 | offset>>8 3 | chunk 2, all little-endian
+func specItemVer(b []byte, o int) int32    { return int32(le32(b, o)) }
+func specItemVhash(b []byte, o int) uint16 { return le16(b, o+4) }
+func specItemOffset(b []byte, o int) uint32 {
+	return uint32(b[o+6])<<8 | uint32(b[o+7])<<16 | uint32(b[o+8])<<24
+}
+func specItemChunk(b []byte, o int) int { return int(uint32(b[o+9]) | uint32(b[o+10])<<8) }
+
+//@ func bytesToItem
+//@   props C08
+//@   ints bv
+//@   requires item != nil && len(b) >= 11
+//@   modifies item.Ver, item.Vhash, item.Pos.Offset, item.Pos.ChunkID
+//@   ensures item.Ver == specItemVer(b, 0) && item.Vhash == specItemVhash(b, 0)
+//@   ensures item.Pos.Offset == specItemOffset(b, 0) && item.Pos.ChunkID == specItemChunk(b, 0)
+
+//@ func itemToBytes
+//@   props C08
+//@   ints bv
+//@   inline                          // callers write into the middle of a leaf: elems(b) would havoc the whole array
+//@   requires item != nil && len(b) >= 11
+//@   modifies elems(b)
+//@   ensures le32(b, 0) == uint32(item.Ver) && le16(b, 4) == item.Vhash
+//@   ensures b[6] == byte(item.Pos.Offset>>8) && b[7] == byte(item.Pos.Offset>>16) && b[8] == byte(item.Pos.Offset>>24)
+//@   ensures b[9] == byte(uint32(item.Pos.ChunkID)) && b[10] == byte(uint32(item.Pos.ChunkID)>>8)
+//@   ensures forall(11, len(b), func(i int) bool { return b[i] == old(b[i]) })
+
+// lemma (ghost code): an item whose offset is 256-aligned and whose chunk id fits 16 bits survives
+// the leaf encoding
+func lemmaItemRoundTrip(b []byte, item *HTreeItem, out *HTreeItem) bool {
+	itemToBytes(b, item)
+	bytesToItem(b, out)
+	return out.Ver == item.Ver && out.Vhash == item.Vhash && out.Pos.Offset == item.Pos.Offset && out.Pos.ChunkID == item.Pos.ChunkID
+}
+
+//@ func lemmaItemRoundTrip
+//@   props C08
+//@   ints bv
+//@   requires item != nil && out != nil && len(b) >= 11
+//@   requires item.Pos.Offset&0xff == 0 && 0 <= item.Pos.ChunkID && item.Pos.ChunkID < 65536
+//@   modifies elems(b), out.Ver, out.Vhash, out.Pos.Offset, out.Pos.ChunkID
+//@   ensures result0
+
+//@ func khashToBytes
+//@   props C08
+//@   ints bv
+//@   inline                          // one library call; callers in either integer model execute it
+//@   requires len(b) >= 8
+//@   modifies elems(b)
+//@   ensures le64(b, 0) == khash
+//@   ensures forall(0, 8, func(i int) bool { return b[i] == byte(khash>>uint(8*i)) })
+//@   ensures forall(8, len(b), func(i int) bool { return b[i] == old(b[i]) })
+
+//@ func bytesToKhash
+//@   props C08
+//@   ints bv
+//@   requires len(b) >= 8
+//@   ensures khash == le64(b, 0)
+
+func lemmaKhashRoundTrip(b []byte, khash uint64) bool {
+	khashToBytes(b, khash)
+	return bytesToKhash(b) == khash
+}
+
+//@ func lemmaKhashRoundTrip
+//@   props C08
+//@   ints bv
+//@   requires len(b) >= 8
+//@   modifies elems(b)
+//@   ensures result0
+
+// ---------- C08: the high part of the key hash comes from the node path ----------
+
+// the first n hex digits of a path packed into the top nibbles of a 32-bit word (digit i at bits 28-4i)
+func specNodeKhash(path []int, n int) uint32 {
+	if n <= 0 {
+		return 0
+	}
+	return specNodeKhash(path, n-1) | uint32(path[n-1]&0xf)<<uint(32-4*n)
+}
+
+// the top n hex digits of a 32-bit word, zeros below
+func specTopDigits32(w uint32, n int) uint32 {
+	if n <= 0 {
+		return 0
+	}
+	if n >= 8 {
+		return w
+	}
+	return w >> uint(32-4*n) << uint(32-4*n)
+}
+
+//@ func getNodeKhash
+//@   props C08
+//@   ints bv
+//@   requires len(path) <= 16        // node paths have at most MAX_DEPTH = 8 digits (digits 8.. fall off the word)
+//@   ensures result0 == specNodeKhash(path, len(path))
+//@   ensures specTopDigits32(result0, len(path)) == result0
+//@   loop 1 invariant khash == specNodeKhash(path, $index) && specTopDigits32(khash, $index) == khash
+
+// lemma: digit i of the packed word is path digit i (for the path lengths that occur, <= 8)
+func lemmaNodeKhashDigits(path []int, L int) bool {
+	w := specNodeKhash(path, L)
+	return forall(0, L, func(i int) bool { return int(w>>uint(28-4*i))&0xf == path[i]&0xf }) && specTopDigits32(w, L) == w
+}
+
+//@ func lemmaNodeKhashDigits
+//@   props C08
+//@   ints bv
+//@   enumerate L in 0 1 2 3 4 5 6 7 8
+//@   requires len(path) >= L
+//@   ensures result0
+
+// RECONSTRUCTION LEMMA (pure bit-vector): for a leaf at path length L the leaf stores the low
+// klen = KHASH_LENS[L] bytes of the key hash; or-ing the top L hex digits (from the node path) back
+// in restores the full 64-bit hash.  Holds iff 8*klen + 4*L >= 64, i.e. it pins the table KHASH_LENS.
+func lemmaKhashReconstruct(kh uint64, L int) bool {
+	klen := KHASH_LENS[L]
+	mask := specTruncMask(klen)
+	top32 := specTopDigits32(uint32(kh>>32), L)
+	return klen == specKhashLen(L) && (kh&mask)|((uint64(top32)<<32)&^mask) == kh
+}
+
+//@ func lemmaKhashReconstruct
+//@   props C08
+//@   ints bv
+//@   enumerate L in 0 1 2 3 4 5 6 7
+//@   ensures result0
+
+// the same statement against the code: with the path digits of kh, what SliceHeader.Iter computes
+// (khash &= mask; khash |= uint64(getNodeKhash(path))<<32 & ^mask) from the truncated stored hash is kh
+func lemmaIterKhash(kh uint64, stored uint64, path []int) bool {
+	mask := Conf.TreeKeyHashMask
+	nodeKHash := uint64(getNodeKhash(path)) << 32 & (^Conf.TreeKeyHashMask)
+	khash := stored
+	khash &= mask
+	khash |= nodeKHash
+	return khash == kh
+}
+
+//@ func lemmaIterKhash
+//@   props C08
+//@   ints bv
+//@   enumerate len(path) in 0 1 2 3 4 5 6 7
+//@   requires Conf != nil && Conf.TreeKeyHashLen == specKhashLen(len(path)) && Conf.TreeKeyHashMask == specTruncMask(Conf.TreeKeyHashLen)
+//@   requires forall(0, len(path), func(i int) bool { return path[i] == specDigit(kh, i) })
+//@   requires stored&Conf.TreeKeyHashMask == kh&Conf.TreeKeyHashMask
+//@   ensures result0
+
+// ---------- C08: leaf search ----------
+
+// the entry at byte position pos of a leaf stores the low klen bytes of kh, little-endian
+// (klen is 5..8: the values of KHASH_LENS; written out so that every shift count is a constant)
+func specEntryMatch(leaf []byte, pos int, kh uint64, klen int) bool {
+	return leaf[pos] == byte(kh) && leaf[pos+1] == byte(kh>>8) && leaf[pos+2] == byte(kh>>16) && leaf[pos+3] == byte(kh>>24) &&
+		leaf[pos+4] == byte(kh>>32) && (klen <= 5 || leaf[pos+5] == byte(kh>>40)) &&
+		(klen <= 6 || leaf[pos+6] == byte(kh>>48)) && (klen <= 7 || leaf[pos+7] == byte(kh>>56))
+}
+
+// byte position p is the start of an entry of a leaf with klen-byte key hashes
+func specAligned(p int, klen int) bool { return p%(klen+11) == 0 }
+
+// position of the first entry among the last k entries of leaf[:n] that stores kh; -1 if there is none
+func specFindK(leaf []byte, n int, k int, kh uint64, klen int) int {
+	if k <= 0 {
+		return -1
+	}
+	p := n - k*(klen+11)
+	if specEntryMatch(leaf, p, kh, klen) {
+		return p
+	}
+	return specFindK(leaf, n, k-1, kh, klen)
+}
+
+// position of the first entry of leaf[:n] that stores kh; -1 if there is none
+func specFind(leaf []byte, n int, kh uint64, klen int) int {
+	return specFindK(leaf, n, n/(klen+11), kh, klen)
+}
+
+// findInBytes: the contract is ASSUMED because the function body contains the cgo/unsafe branch
+// (n >= LEN_USE_C_FIND: reflect.SliceHeader through unsafe.Pointer, C.find), which govc rejects
+// ("unsupported conversion *[]byte -> unsafe.Pointer").  The Go branch is verified against the very
+// same clauses as ghostFindInBytesGo below (a verbatim copy of that branch).
+//@ func findInBytes
+//@   props C08
+//@   ints bv
+//@   assumed C branch uses unsafe + C.find; the Go branch is verified as ghostFindInBytesGo against the same clauses
+//@   requires Conf != nil && 5 <= Conf.TreeKeyHashLen && Conf.TreeKeyHashLen <= 8 && specAligned(len(leaf), Conf.TreeKeyHashLen)
+//@   ensures result0 == -1 || (0 <= result0 && result0 < len(leaf) && result0+Conf.TreeKeyHashLen+11 <= len(leaf) && specAligned(result0, Conf.TreeKeyHashLen))
+//@   ensures result0 == specFind(leaf, len(leaf), keyhash, Conf.TreeKeyHashLen)
+//@   ensures result0 >= 0 ==> specEntryMatch(leaf, result0, keyhash, Conf.TreeKeyHashLen)
+//@   ensures forall(0, len(leaf), func(p int) bool { return specAligned(p, Conf.TreeKeyHashLen) && (result0 == -1 || p < result0) ==> !specEntryMatch(leaf, p, keyhash, Conf.TreeKeyHashLen) })
+
+// verbatim copy of the Go branch of findInBytes (n < LEN_USE_C_FIND)
+func ghostFindInBytesGo(leaf []byte, keyhash uint64) int {
+	lenKHash := Conf.TreeKeyHashLen
+	lenItem := lenKHash + TREE_ITEM_HEAD_SIZE
+	size := len(leaf)
+	var khashBytes [8]byte
+	khashToBytes(khashBytes[0:], keyhash)
+	kb := khashBytes[:lenKHash]
+	for i := 0; i < size; i += lenItem {
+		if bytes.Compare(leaf[i:i+lenKHash], kb) == 0 {
+			return i
+		}
+	}
+	return -1
+}
+
+//@ func ghostFindInBytesGo
+//@   props C08
+//@   ints math
+//@   enumerate Conf.TreeKeyHashLen in 5 6 7 8
+//@   requires Conf != nil && specAligned(len(leaf), Conf.TreeKeyHashLen)
+//@   ensures result0 == -1 || (0 <= result0 && result0 < len(leaf) && result0+Conf.TreeKeyHashLen+11 <= len(leaf) && specAligned(result0, Conf.TreeKeyHashLen))
+//@   ensures result0 >= 0 ==> specEntryMatch(leaf, result0, keyhash, Conf.TreeKeyHashLen)
+//@   ensures forall(0, len(leaf), func(p int) bool { return specAligned(p, Conf.TreeKeyHashLen) && (result0 == -1 || p < result0) ==> !specEntryMatch(leaf, p, keyhash, Conf.TreeKeyHashLen) })
+//@   loop 1 invariant 0 <= i && i <= size && i%lenItem == 0
+//@   loop 1 invariant forall(0, i, func(p int) bool { return p%lenItem == 0 ==> !specEntryMatch(leaf, p, keyhash, lenKHash) })
+
+// second verbatim copy of the Go branch, for the clause result0 == specFind(...) alone (the recursive
+// spec function in the context slows the solvers down on the quantified clauses, so the two groups of
+// clauses are proved separately)
+func ghostFindInBytesGo2(leaf []byte, keyhash uint64) int {
+	lenKHash := Conf.TreeKeyHashLen
+	lenItem := lenKHash + TREE_ITEM_HEAD_SIZE
+	size := len(leaf)
+	var khashBytes [8]byte
+	khashToBytes(khashBytes[0:], keyhash)
+	kb := khashBytes[:lenKHash]
+	for i := 0; i < size; i += lenItem {
+		if bytes.Compare(leaf[i:i+lenKHash], kb) == 0 {
+			return i
+		}
+	}
+	return -1
+}
+
+//@ func ghostFindInBytesGo2
+//@   ints math
+//@   enumerate Conf.TreeKeyHashLen in 5 6 7 8
+//@   requires Conf != nil && specAligned(len(leaf), Conf.TreeKeyHashLen)
+//@   ensures result0 == specFind(leaf, len(leaf), keyhash, Conf.TreeKeyHashLen)
+//@   loop 1 invariant 0 <= i && i <= size && i%lenItem == 0
+//@   loop 1 invariant specFind(leaf, size, keyhash, lenKHash) == specFindK(leaf, size, (size-i)/lenItem, keyhash, lenKHash)
+
+// ---------- C08: leaf get / set / remove on the byte sequence ----------
+
+// MODEL of the C memory of a leaf.  A SliceHeader owns one malloc'ed block (Data, Len); Go code sees
+// it only through ToBytes (reflect.SliceHeader + unsafe) and grows it through enlarge (C.realloc).
+// govc has no model of raw memory, so the block is represented by a ghost byte array that belongs to
+// the SliceHeader object: ghostLeafMem is a deterministic uninterpreted function (govc treats calls
+// through a package-level function variable that way).  Assumption made by this model: a block is
+// reachable through exactly one SliceHeader object (header copies, as in HTree.dump, are not covered).
+const ghostLeafCap = 1 << 40
+
+
+var ghostLeafMem func(sh *SliceHeader) *[ghostLeafCap]byte
+
+// what InitTree establishes for the leaf layout (klen = 5..8 are the values in KHASH_LENS)
+func confLeafOK() bool {
+	return Conf != nil && 5 <= Conf.TreeKeyHashLen && Conf.TreeKeyHashLen <= 8
+}
+
+// a well-formed leaf: a whole number of (klen+11)-byte entries
+func specLeafOK(sh *SliceHeader) bool {
+	return 0 <= sh.Len && sh.Len < ghostLeafCap && specAligned(sh.Len, Conf.TreeKeyHashLen)
+}
+
+// no entry of leaf[:n] stores kh
+func specNoMatch(leaf []byte, n int, kh uint64, klen int) bool {
+	return forall(0, n, func(q int) bool { return !specAligned(q, klen) || !specEntryMatch(leaf, q, kh, klen) })
+}
+
+// p is the position of the first entry of leaf that stores kh
+func specFirstMatch(leaf []byte, p int, kh uint64, klen int) bool {
+	return specAligned(p, klen) && specEntryMatch(leaf, p, kh, klen) && specNoMatch(leaf, p, kh, klen)
+}
+
+//@ func (sh *SliceHeader) ToBytes
+//@   props C08
+//@   ints bv
+//@   assumed builds a slice header over the C block with reflect.SliceHeader/unsafe.Pointer; modelled as the ghost array owned by sh
+//@   requires 0 <= sh.Len && sh.Len <= ghostLeafCap
+//@   ensures sameSlice(b, ghostLeafMem(sh)[0:sh.Len:sh.Len])
+
+//@ func (sh *SliceHeader) enlarge
+//@   props C08
+//@   ints bv
+//@   assumed C.malloc/C.realloc: the block has the new size and keeps its old content up to min(old size, new size); the rest is arbitrary
+//@   requires 0 <= sh.Len && sh.Len <= ghostLeafCap && 0 <= size && size <= ghostLeafCap
+//@   modifies sh.Data, sh.Len, elems(ghostLeafMem(sh)[:])
+//@   ensures sh.Len == size
+//@   ensures forall(0, old(sh.Len), func(i int) bool { return i < size ==> ghostLeafMem(sh)[i] == old(ghostLeafMem(sh)[i]) })
+
+// Get: exist iff some entry stores the key hash; the item is decoded from the first such entry.
+//@ func (sh *SliceHeader) Get
+//@   props C08
+//@   ints bv
+//@   enumerate Conf.TreeKeyHashLen in 5 6 7 8
+//@   opaque specFind spec_store_specFind specFindK spec_store_specFindK specAligned    // no arithmetic on entry positions is needed here (second name: SMT-level symbol, see report)
+//@   requires req != nil && req.ki != nil && confLeafOK() && specLeafOK(sh)
+//@   modifies req.item.Ver, req.item.Vhash, req.item.Pos.Offset, req.item.Pos.ChunkID
+//@   ensures exist == !specNoMatch(ghostLeafMem(sh)[:], sh.Len, req.ki.KeyHash, Conf.TreeKeyHashLen)
+//@   ensures forall(0, sh.Len, func(p int) bool { return specFirstMatch(ghostLeafMem(sh)[:], p, req.ki.KeyHash, Conf.TreeKeyHashLen) ==> req.item.Ver == specItemVer(ghostLeafMem(sh)[:], p+Conf.TreeKeyHashLen) })
+//@   ensures forall(0, sh.Len, func(p int) bool { return specFirstMatch(ghostLeafMem(sh)[:], p, req.ki.KeyHash, Conf.TreeKeyHashLen) ==> req.item.Vhash == specItemVhash(ghostLeafMem(sh)[:], p+Conf.TreeKeyHashLen) })
+//@   ensures forall(0, sh.Len, func(p int) bool { return specFirstMatch(ghostLeafMem(sh)[:], p, req.ki.KeyHash, Conf.TreeKeyHashLen) ==> req.item.Pos.Offset == specItemOffset(ghostLeafMem(sh)[:], p+Conf.TreeKeyHashLen) })
+//@   ensures forall(0, sh.Len, func(p int) bool { return specFirstMatch(ghostLeafMem(sh)[:], p, req.ki.KeyHash, Conf.TreeKeyHashLen) ==> req.item.Pos.ChunkID == specItemChunk(ghostLeafMem(sh)[:], p+Conf.TreeKeyHashLen) })
+//@   ensures !exist ==> req.item.Ver == old(req.item.Ver) && req.item.Vhash == old(req.item.Vhash) && req.item.Pos.Offset == old(req.item.Pos.Offset) && req.item.Pos.ChunkID == old(req.item.Pos.ChunkID)
+//@   ensures exist == (specFind(ghostLeafMem(sh)[:sh.Len], sh.Len, req.ki.KeyHash, Conf.TreeKeyHashLen) >= 0)                       // the same, quantifier-free: specFind = position of the first entry storing the key hash
+//@   ensures exist ==> req.item.Ver == specItemVer(ghostLeafMem(sh)[:sh.Len], specFind(ghostLeafMem(sh)[:sh.Len], sh.Len, req.ki.KeyHash, Conf.TreeKeyHashLen)+Conf.TreeKeyHashLen) && req.item.Vhash == specItemVhash(ghostLeafMem(sh)[:sh.Len], specFind(ghostLeafMem(sh)[:sh.Len], sh.Len, req.ki.KeyHash, Conf.TreeKeyHashLen)+Conf.TreeKeyHashLen)
+//@   ensures exist ==> req.item.Pos.Offset == specItemOffset(ghostLeafMem(sh)[:sh.Len], specFind(ghostLeafMem(sh)[:sh.Len], sh.Len, req.ki.KeyHash, Conf.TreeKeyHashLen)+Conf.TreeKeyHashLen) && req.item.Pos.ChunkID == specItemChunk(ghostLeafMem(sh)[:sh.Len], specFind(ghostLeafMem(sh)[:sh.Len], sh.Len, req.ki.KeyHash, Conf.TreeKeyHashLen)+Conf.TreeKeyHashLen)
+
+// Set: overwrite the first entry that stores the key hash, else append one entry; returns the old item.
+//@ func (sh *SliceHeader) Set
+//@   props C08
+//@   ints bv
+//@   enumerate Conf.TreeKeyHashLen in 5 6 7 8
+//@   opaque specFind spec_store_specFind specFindK spec_store_specFindK specAligned
+//@   requires req != nil && req.ki != nil && confLeafOK() && specLeafOK(sh) && sh.Len+Conf.TreeKeyHashLen+11 <= ghostLeafCap
+//@   modifies sh.Data, sh.Len, elems(ghostLeafMem(sh)[:])
+//@   ensures exist == !old(specNoMatch(ghostLeafMem(sh)[:], sh.Len, req.ki.KeyHash, Conf.TreeKeyHashLen))
+//@   ensures forall(0, old(sh.Len), func(p int) bool { return old(specFirstMatch(ghostLeafMem(sh)[:], p, req.ki.KeyHash, Conf.TreeKeyHashLen)) ==> exist })
+//@   ensures exist ==> sh.Len == old(sh.Len)
+//@   ensures !exist ==> sh.Len == old(sh.Len)+Conf.TreeKeyHashLen+11 && oldm.Ver == 0 && oldm.Vhash == 0
+//@   ensures forall(0, old(sh.Len), func(p int) bool { return old(specFirstMatch(ghostLeafMem(sh)[:], p, req.ki.KeyHash, Conf.TreeKeyHashLen)) ==> oldm.Ver == old(specItemVer(ghostLeafMem(sh)[:], p+Conf.TreeKeyHashLen)) })
+//@   ensures forall(0, old(sh.Len), func(p int) bool { return old(specFirstMatch(ghostLeafMem(sh)[:], p, req.ki.KeyHash, Conf.TreeKeyHashLen)) ==> oldm.Vhash == old(specItemVhash(ghostLeafMem(sh)[:], p+Conf.TreeKeyHashLen)) })
+//@   ensures forall(0, old(sh.Len), func(p int) bool { return old(specFirstMatch(ghostLeafMem(sh)[:], p, req.ki.KeyHash, Conf.TreeKeyHashLen)) ==> oldm.Pos.Offset == old(specItemOffset(ghostLeafMem(sh)[:], p+Conf.TreeKeyHashLen)) && oldm.Pos.ChunkID == old(specItemChunk(ghostLeafMem(sh)[:], p+Conf.TreeKeyHashLen)) })
+//@   ensures forall(0, old(sh.Len)+1, func(p int) bool { return (p == old(sh.Len) && !exist) || (p < old(sh.Len) && old(specFirstMatch(ghostLeafMem(sh)[:], p, req.ki.KeyHash, Conf.TreeKeyHashLen))) ==> \
+//@               specEntryMatch(ghostLeafMem(sh)[:], p, req.ki.KeyHash, Conf.TreeKeyHashLen) })
+//@   ensures forall(0, old(sh.Len)+1, func(p int) bool { return (p == old(sh.Len) && !exist) || (p < old(sh.Len) && old(specFirstMatch(ghostLeafMem(sh)[:], p, req.ki.KeyHash, Conf.TreeKeyHashLen))) ==> \
+//@               specItemVer(ghostLeafMem(sh)[:], p+Conf.TreeKeyHashLen) == req.item.Ver && specItemVhash(ghostLeafMem(sh)[:], p+Conf.TreeKeyHashLen) == req.item.Vhash })
+//@   ensures forall(0, old(sh.Len)+1, func(p int) bool { return (p == old(sh.Len) && !exist) || (p < old(sh.Len) && old(specFirstMatch(ghostLeafMem(sh)[:], p, req.ki.KeyHash, Conf.TreeKeyHashLen))) ==> \
+//@               specItemOffset(ghostLeafMem(sh)[:], p+Conf.TreeKeyHashLen) == req.item.Pos.Offset&^0xff && specItemChunk(ghostLeafMem(sh)[:], p+Conf.TreeKeyHashLen) == int(uint16(req.item.Pos.ChunkID)) })
+//@   ensures !exist ==> forall(0, old(sh.Len), func(i int) bool { return ghostLeafMem(sh)[i] == old(ghostLeafMem(sh)[i]) })
+//@   ensures forall(0, old(sh.Len), func(p int) bool { return old(specFirstMatch(ghostLeafMem(sh)[:], p, req.ki.KeyHash, Conf.TreeKeyHashLen)) ==> \
+//@               forall(0, old(sh.Len), func(i int) bool { return i < p || i >= p+Conf.TreeKeyHashLen+11 ==> ghostLeafMem(sh)[i] == old(ghostLeafMem(sh)[i]) }) })
+//@   ensures exist == (old(specFind(ghostLeafMem(sh)[:sh.Len], sh.Len, req.ki.KeyHash, Conf.TreeKeyHashLen)) >= 0)
+//@   ensures exist ==> oldm.Ver == old(specItemVer(ghostLeafMem(sh)[:sh.Len], specFind(ghostLeafMem(sh)[:sh.Len], sh.Len, req.ki.KeyHash, Conf.TreeKeyHashLen)+Conf.TreeKeyHashLen)) && oldm.Vhash == old(specItemVhash(ghostLeafMem(sh)[:sh.Len], specFind(ghostLeafMem(sh)[:sh.Len], sh.Len, req.ki.KeyHash, Conf.TreeKeyHashLen)+Conf.TreeKeyHashLen))
+//@   ensures exist ==> oldm.Pos.Offset == old(specItemOffset(ghostLeafMem(sh)[:sh.Len], specFind(ghostLeafMem(sh)[:sh.Len], sh.Len, req.ki.KeyHash, Conf.TreeKeyHashLen)+Conf.TreeKeyHashLen)) && oldm.Pos.ChunkID == old(specItemChunk(ghostLeafMem(sh)[:sh.Len], specFind(ghostLeafMem(sh)[:sh.Len], sh.Len, req.ki.KeyHash, Conf.TreeKeyHashLen)+Conf.TreeKeyHashLen))
+
+// Remove: if the first entry that stores the key hash has the given offset (or oldPos.ChunkID == -1),
+// delete it: the tail moves down by one entry and the leaf shrinks by one entry.
+//@ func (sh *SliceHeader) Remove
+//@   props C08
+//@   ints bv
+//@   enumerate Conf.TreeKeyHashLen in 5 6 7 8
+//@   opaque specFind spec_store_specFind specFindK spec_store_specFindK specAligned
+//@   requires ki != nil && confLeafOK() && specLeafOK(sh)
+//@   modifies sh.Len, elems(ghostLeafMem(sh)[:])
+//@   ensures old(specNoMatch(ghostLeafMem(sh)[:], sh.Len, ki.KeyHash, Conf.TreeKeyHashLen)) ==> !removed && oldm.Ver == 0 && oldm.Vhash == 0
+//@   ensures forall(0, old(sh.Len), func(p int) bool { return old(specFirstMatch(ghostLeafMem(sh)[:], p, ki.KeyHash, Conf.TreeKeyHashLen)) ==> oldm.Ver == old(specItemVer(ghostLeafMem(sh)[:], p+Conf.TreeKeyHashLen)) })
+//@   ensures forall(0, old(sh.Len), func(p int) bool { return old(specFirstMatch(ghostLeafMem(sh)[:], p, ki.KeyHash, Conf.TreeKeyHashLen)) ==> oldm.Vhash == old(specItemVhash(ghostLeafMem(sh)[:], p+Conf.TreeKeyHashLen)) })
+//@   ensures forall(0, old(sh.Len), func(p int) bool { return old(specFirstMatch(ghostLeafMem(sh)[:], p, ki.KeyHash, Conf.TreeKeyHashLen)) ==> oldm.Pos.Offset == old(specItemOffset(ghostLeafMem(sh)[:], p+Conf.TreeKeyHashLen)) && oldm.Pos.ChunkID == old(specItemChunk(ghostLeafMem(sh)[:], p+Conf.TreeKeyHashLen)) })
+//@   ensures !old(specNoMatch(ghostLeafMem(sh)[:], sh.Len, ki.KeyHash, Conf.TreeKeyHashLen)) ==> removed == (oldPos.ChunkID == -1 || oldm.Pos.Offset == oldPos.Offset)
+//@   ensures forall(0, old(sh.Len), func(p int) bool { return old(specFirstMatch(ghostLeafMem(sh)[:], p, ki.KeyHash, Conf.TreeKeyHashLen)) ==> removed == (oldPos.ChunkID == -1 || oldm.Pos.Offset == oldPos.Offset) })
+//@   ensures removed ==> sh.Len == old(sh.Len)-Conf.TreeKeyHashLen-11
+//@   ensures !removed ==> sh.Len == old(sh.Len) && forall(0, old(sh.Len), func(i int) bool { return ghostLeafMem(sh)[i] == old(ghostLeafMem(sh)[i]) })
+//@   ensures removed ==> forall(0, old(sh.Len), func(p int) bool { return old(specFirstMatch(ghostLeafMem(sh)[:], p, ki.KeyHash, Conf.TreeKeyHashLen)) ==> \
+//@               forall(0, old(sh.Len), func(i int) bool { return (i < p ==> ghostLeafMem(sh)[i] == old(ghostLeafMem(sh)[i])) && (p <= i && i < sh.Len ==> ghostLeafMem(sh)[i] == old(ghostLeafMem(sh)[i+Conf.TreeKeyHashLen+11])) }) })
+//@   ensures old(specFind(ghostLeafMem(sh)[:sh.Len], sh.Len, ki.KeyHash, Conf.TreeKeyHashLen)) < 0 ==> !removed
+//@   ensures old(specFind(ghostLeafMem(sh)[:sh.Len], sh.Len, ki.KeyHash, Conf.TreeKeyHashLen)) >= 0 ==> removed == (oldPos.ChunkID == -1 || old(specItemOffset(ghostLeafMem(sh)[:sh.Len], specFind(ghostLeafMem(sh)[:sh.Len], sh.Len, ki.KeyHash, Conf.TreeKeyHashLen)+Conf.TreeKeyHashLen)) == oldPos.Offset)
+//@   ensures old(specFind(ghostLeafMem(sh)[:sh.Len], sh.Len, ki.KeyHash, Conf.TreeKeyHashLen)) >= 0 ==> oldm.Ver == old(specItemVer(ghostLeafMem(sh)[:sh.Len], specFind(ghostLeafMem(sh)[:sh.Len], sh.Len, ki.KeyHash, Conf.TreeKeyHashLen)+Conf.TreeKeyHashLen)) && oldm.Vhash == old(specItemVhash(ghostLeafMem(sh)[:sh.Len], specFind(ghostLeafMem(sh)[:sh.Len], sh.Len, ki.KeyHash, Conf.TreeKeyHashLen)+Conf.TreeKeyHashLen))
+
+// lemma: adding or removing one entry keeps a leaf a whole number of entries (Set/Remove state the
+// exact change of sh.Len; with this, specLeafOK is preserved)
+func lemmaAlignedStep(n int, klen int) bool {
+	return specAligned(n+klen+11, klen) && (n < klen+11 || specAligned(n-klen-11, klen))
+}
+
+//@ func lemmaAlignedStep
+//@   props C08
+//@   ints math
+//@   enumerate klen in 5 6 7 8
+//@   requires 0 <= n && n < ghostLeafCap && specAligned(n, klen)
+//@   ensures result0
+
+// ---------- C08: leaf-level node summary (count, hash) is maintained incrementally ----------
+
+// from the property: a key counts iff it is live (version > 0) ...
+func specLive(ver int32) uint32 {
+	if ver > 0 {
+		return 1
+	}
+	return 0
+}
+
+// ... and a live key contributes vhash * (16 bits of the key hash above bit 32) to the 16-bit node hash
+func specContrib(ver int32, vhash uint16, kh uint64) uint16 {
+	if ver > 0 {
+		return vhash * uint16(kh>>32)
+	}
+	return 0
+}
+
+// replacing an entry (over, ovh) by (nver, nvh) for the same key: the change of the node hash in the
+// shape the code computes it ...
+func specLiveVhash(ver int32, vhash uint16) uint16 {
+	if ver > 0 {
+		return vhash
+	}
+	return 0
+}
+func specHashDelta(nver int32, nvh uint16, over int32, ovh uint16, kh uint64) uint16 {
+	return (specLiveVhash(nver, nvh) - specLiveVhash(over, ovh)) * uint16(kh>>32)
+}
+
+// ... which is contrib(new) - contrib(old) (lemma, pure bit-vector arithmetic).  setToLeaf's clause
+// for the overwrite case is stated with specHashDelta because the solvers cannot prove the
+// distributivity (a-b)*k == a*k - b*k once it is buried under the call's case distinctions.
+func lemmaHashDelta(nver int32, nvh uint16, over int32, ovh uint16, kh uint64) bool {
+	return specHashDelta(nver, nvh, over, ovh, kh) == specContrib(nver, nvh, kh)-specContrib(over, ovh, kh)
+}
+
+//@ func lemmaHashDelta
+//@   props C08
+//@   ints bv
+//@   ensures nver > 0 && over > 0 ==> result0        // one clause per liveness case: each is plain distributivity
+//@   ensures nver > 0 && over <= 0 ==> result0
+//@   ensures nver <= 0 && over > 0 ==> result0
+//@   ensures nver <= 0 && over <= 0 ==> result0
+
+// setToLeaf, delta form: hash' = hash + contrib(new) - contrib(old entry, if the key was present),
+// count' = count + live(new) - live(old entry); "old entry" = first entry of the leaf storing the key hash
+//@ func (tree *HTree) setToLeaf
+//@   abstract_mul
+//@   props C08
+//@   ints bv
+//@   opaque specFind spec_store_specFind specFindK spec_store_specFindK specNoMatch spec_store_specNoMatch specAligned spec_store_specAligned specEntryMatch spec_store_specEntryMatch specItemVer spec_store_specItemVer specItemVhash spec_store_specItemVhash specItemOffset spec_store_specItemOffset specItemChunk    // pure delta arithmetic: the leaf functions stay uninterpreted
+//@   requires ni != nil && ni.node != nil && req != nil && req.ki != nil && confLeafOK()
+//@   requires 0 <= ni.offset && ni.offset < len(tree.leafs) && specLeafOK(&tree.leafs[ni.offset]) && tree.leafs[ni.offset].Len+Conf.TreeKeyHashLen+11 <= ghostLeafCap
+//@   modifies ni.node.count, ni.node.hash, tree.leafs[ni.offset].Data, tree.leafs[ni.offset].Len, elems(ghostLeafMem(&tree.leafs[ni.offset])[:])
+//@   ensures old(specFind(ghostLeafMem(&tree.leafs[ni.offset])[:tree.leafs[ni.offset].Len], tree.leafs[ni.offset].Len, req.ki.KeyHash, Conf.TreeKeyHashLen)) < 0 ==> ni.node.hash == old(ni.node.hash)+specContrib(req.item.Ver, req.item.Vhash, req.ki.KeyHash)
+//@   ensures old(specFind(ghostLeafMem(&tree.leafs[ni.offset])[:tree.leafs[ni.offset].Len], tree.leafs[ni.offset].Len, req.ki.KeyHash, Conf.TreeKeyHashLen)) < 0 ==> ni.node.count == old(ni.node.count)+specLive(req.item.Ver) && tree.leafs[ni.offset].Len == old(tree.leafs[ni.offset].Len)+Conf.TreeKeyHashLen+11
+//@   ensures old(specFind(ghostLeafMem(&tree.leafs[ni.offset])[:tree.leafs[ni.offset].Len], tree.leafs[ni.offset].Len, req.ki.KeyHash, Conf.TreeKeyHashLen)) >= 0 && req.item.Ver > 0 && old(specItemVer(ghostLeafMem(&tree.leafs[ni.offset])[:tree.leafs[ni.offset].Len], specFind(ghostLeafMem(&tree.leafs[ni.offset])[:tree.leafs[ni.offset].Len], tree.leafs[ni.offset].Len, req.ki.KeyHash, Conf.TreeKeyHashLen)+Conf.TreeKeyHashLen)) > 0 ==> ni.node.hash == old(ni.node.hash)+old(specHashDelta(req.item.Ver, req.item.Vhash, specItemVer(ghostLeafMem(&tree.leafs[ni.offset])[:tree.leafs[ni.offset].Len], specFind(ghostLeafMem(&tree.leafs[ni.offset])[:tree.leafs[ni.offset].Len], tree.leafs[ni.offset].Len, req.ki.KeyHash, Conf.TreeKeyHashLen)+Conf.TreeKeyHashLen), specItemVhash(ghostLeafMem(&tree.leafs[ni.offset])[:tree.leafs[ni.offset].Len], specFind(ghostLeafMem(&tree.leafs[ni.offset])[:tree.leafs[ni.offset].Len], tree.leafs[ni.offset].Len, req.ki.KeyHash, Conf.TreeKeyHashLen)+Conf.TreeKeyHashLen), req.ki.KeyHash))
+//@   ensures old(specFind(ghostLeafMem(&tree.leafs[ni.offset])[:tree.leafs[ni.offset].Len], tree.leafs[ni.offset].Len, req.ki.KeyHash, Conf.TreeKeyHashLen)) >= 0 && req.item.Ver > 0 && old(specItemVer(ghostLeafMem(&tree.leafs[ni.offset])[:tree.leafs[ni.offset].Len], specFind(ghostLeafMem(&tree.leafs[ni.offset])[:tree.leafs[ni.offset].Len], tree.leafs[ni.offset].Len, req.ki.KeyHash, Conf.TreeKeyHashLen)+Conf.TreeKeyHashLen)) <= 0 ==> ni.node.hash == old(ni.node.hash)+old(specHashDelta(req.item.Ver, req.item.Vhash, specItemVer(ghostLeafMem(&tree.leafs[ni.offset])[:tree.leafs[ni.offset].Len], specFind(ghostLeafMem(&tree.leafs[ni.offset])[:tree.leafs[ni.offset].Len], tree.leafs[ni.offset].Len, req.ki.KeyHash, Conf.TreeKeyHashLen)+Conf.TreeKeyHashLen), specItemVhash(ghostLeafMem(&tree.leafs[ni.offset])[:tree.leafs[ni.offset].Len], specFind(ghostLeafMem(&tree.leafs[ni.offset])[:tree.leafs[ni.offset].Len], tree.leafs[ni.offset].Len, req.ki.KeyHash, Conf.TreeKeyHashLen)+Conf.TreeKeyHashLen), req.ki.KeyHash))
+//@   ensures old(specFind(ghostLeafMem(&tree.leafs[ni.offset])[:tree.leafs[ni.offset].Len], tree.leafs[ni.offset].Len, req.ki.KeyHash, Conf.TreeKeyHashLen)) >= 0 && req.item.Ver <= 0 && old(specItemVer(ghostLeafMem(&tree.leafs[ni.offset])[:tree.leafs[ni.offset].Len], specFind(ghostLeafMem(&tree.leafs[ni.offset])[:tree.leafs[ni.offset].Len], tree.leafs[ni.offset].Len, req.ki.KeyHash, Conf.TreeKeyHashLen)+Conf.TreeKeyHashLen)) > 0 ==> ni.node.hash == old(ni.node.hash)+old(specHashDelta(req.item.Ver, req.item.Vhash, specItemVer(ghostLeafMem(&tree.leafs[ni.offset])[:tree.leafs[ni.offset].Len], specFind(ghostLeafMem(&tree.leafs[ni.offset])[:tree.leafs[ni.offset].Len], tree.leafs[ni.offset].Len, req.ki.KeyHash, Conf.TreeKeyHashLen)+Conf.TreeKeyHashLen), specItemVhash(ghostLeafMem(&tree.leafs[ni.offset])[:tree.leafs[ni.offset].Len], specFind(ghostLeafMem(&tree.leafs[ni.offset])[:tree.leafs[ni.offset].Len], tree.leafs[ni.offset].Len, req.ki.KeyHash, Conf.TreeKeyHashLen)+Conf.TreeKeyHashLen), req.ki.KeyHash))
+//@   ensures old(specFind(ghostLeafMem(&tree.leafs[ni.offset])[:tree.leafs[ni.offset].Len], tree.leafs[ni.offset].Len, req.ki.KeyHash, Conf.TreeKeyHashLen)) >= 0 && req.item.Ver <= 0 && old(specItemVer(ghostLeafMem(&tree.leafs[ni.offset])[:tree.leafs[ni.offset].Len], specFind(ghostLeafMem(&tree.leafs[ni.offset])[:tree.leafs[ni.offset].Len], tree.leafs[ni.offset].Len, req.ki.KeyHash, Conf.TreeKeyHashLen)+Conf.TreeKeyHashLen)) <= 0 ==> ni.node.hash == old(ni.node.hash)+old(specHashDelta(req.item.Ver, req.item.Vhash, specItemVer(ghostLeafMem(&tree.leafs[ni.offset])[:tree.leafs[ni.offset].Len], specFind(ghostLeafMem(&tree.leafs[ni.offset])[:tree.leafs[ni.offset].Len], tree.leafs[ni.offset].Len, req.ki.KeyHash, Conf.TreeKeyHashLen)+Conf.TreeKeyHashLen), specItemVhash(ghostLeafMem(&tree.leafs[ni.offset])[:tree.leafs[ni.offset].Len], specFind(ghostLeafMem(&tree.leafs[ni.offset])[:tree.leafs[ni.offset].Len], tree.leafs[ni.offset].Len, req.ki.KeyHash, Conf.TreeKeyHashLen)+Conf.TreeKeyHashLen), req.ki.KeyHash))
+//@   ensures old(specFind(ghostLeafMem(&tree.leafs[ni.offset])[:tree.leafs[ni.offset].Len], tree.leafs[ni.offset].Len, req.ki.KeyHash, Conf.TreeKeyHashLen)) >= 0 ==> ni.node.count == old(ni.node.count)+specLive(req.item.Ver)-old(specLive(specItemVer(ghostLeafMem(&tree.leafs[ni.offset])[:tree.leafs[ni.offset].Len], specFind(ghostLeafMem(&tree.leafs[ni.offset])[:tree.leafs[ni.offset].Len], tree.leafs[ni.offset].Len, req.ki.KeyHash, Conf.TreeKeyHashLen)+Conf.TreeKeyHashLen))) && tree.leafs[ni.offset].Len == old(tree.leafs[ni.offset].Len)
+
+// remvoeFromLeaf, delta form: if the entry is removed, hash' = hash - contrib(old entry), count' = count - live(old entry)
+//@ func (tree *HTree) remvoeFromLeaf
+//@   props C08
+//@   ints bv
+//@   opaque specFind spec_store_specFind specFindK spec_store_specFindK specNoMatch spec_store_specNoMatch specAligned spec_store_specAligned specEntryMatch spec_store_specEntryMatch specItemVer spec_store_specItemVer specItemVhash spec_store_specItemVhash specItemOffset spec_store_specItemOffset specItemChunk    // pure delta arithmetic: the leaf functions stay uninterpreted
+//@   requires ni != nil && ni.node != nil && ki != nil && confLeafOK()
+//@   requires 0 <= ni.offset && ni.offset < len(tree.leafs) && specLeafOK(&tree.leafs[ni.offset])
+//@   modifies ni.node.count, ni.node.hash, tree.leafs[ni.offset].Len, elems(ghostLeafMem(&tree.leafs[ni.offset])[:])
+//@   ensures old(specFind(ghostLeafMem(&tree.leafs[ni.offset])[:tree.leafs[ni.offset].Len], tree.leafs[ni.offset].Len, ki.KeyHash, Conf.TreeKeyHashLen)) < 0 || !(oldPos.ChunkID == -1 || old(specItemOffset(ghostLeafMem(&tree.leafs[ni.offset])[:tree.leafs[ni.offset].Len], specFind(ghostLeafMem(&tree.leafs[ni.offset])[:tree.leafs[ni.offset].Len], tree.leafs[ni.offset].Len, ki.KeyHash, Conf.TreeKeyHashLen)+Conf.TreeKeyHashLen)) == oldPos.Offset) ==> \
+//@               ni.node.hash == old(ni.node.hash) && ni.node.count == old(ni.node.count) && tree.leafs[ni.offset].Len == old(tree.leafs[ni.offset].Len)
+//@   ensures old(specFind(ghostLeafMem(&tree.leafs[ni.offset])[:tree.leafs[ni.offset].Len], tree.leafs[ni.offset].Len, ki.KeyHash, Conf.TreeKeyHashLen)) >= 0 && (oldPos.ChunkID == -1 || old(specItemOffset(ghostLeafMem(&tree.leafs[ni.offset])[:tree.leafs[ni.offset].Len], specFind(ghostLeafMem(&tree.leafs[ni.offset])[:tree.leafs[ni.offset].Len], tree.leafs[ni.offset].Len, ki.KeyHash, Conf.TreeKeyHashLen)+Conf.TreeKeyHashLen)) == oldPos.Offset) ==> \
+//@               ni.node.hash == old(ni.node.hash)-old(specContrib(specItemVer(ghostLeafMem(&tree.leafs[ni.offset])[:tree.leafs[ni.offset].Len], specFind(ghostLeafMem(&tree.leafs[ni.offset])[:tree.leafs[ni.offset].Len], tree.leafs[ni.offset].Len, ki.KeyHash, Conf.TreeKeyHashLen)+Conf.TreeKeyHashLen), specItemVhash(ghostLeafMem(&tree.leafs[ni.offset])[:tree.leafs[ni.offset].Len], specFind(ghostLeafMem(&tree.leafs[ni.offset])[:tree.leafs[ni.offset].Len], tree.leafs[ni.offset].Len, ki.KeyHash, Conf.TreeKeyHashLen)+Conf.TreeKeyHashLen), ki.KeyHash))
+//@   ensures old(specFind(ghostLeafMem(&tree.leafs[ni.offset])[:tree.leafs[ni.offset].Len], tree.leafs[ni.offset].Len, ki.KeyHash, Conf.TreeKeyHashLen)) >= 0 && (oldPos.ChunkID == -1 || old(specItemOffset(ghostLeafMem(&tree.leafs[ni.offset])[:tree.leafs[ni.offset].Len], specFind(ghostLeafMem(&tree.leafs[ni.offset])[:tree.leafs[ni.offset].Len], tree.leafs[ni.offset].Len, ki.KeyHash, Conf.TreeKeyHashLen)+Conf.TreeKeyHashLen)) == oldPos.Offset) ==> \
+//@               ni.node.count == old(ni.node.count)-old(specLive(specItemVer(ghostLeafMem(&tree.leafs[ni.offset])[:tree.leafs[ni.offset].Len], specFind(ghostLeafMem(&tree.leafs[ni.offset])[:tree.leafs[ni.offset].Len], tree.leafs[ni.offset].Len, ki.KeyHash, Conf.TreeKeyHashLen)+Conf.TreeKeyHashLen))) && tree.leafs[ni.offset].Len == old(tree.leafs[ni.offset].Len)-Conf.TreeKeyHashLen-11
